@@ -24,7 +24,7 @@ Definition parse_place (es1 es2 : list parse_error) (l1 l2 : loc) : Prop :=
 (* Every location a diagnostic carries is either a place of an input node (the whole node, or one of its
    operand tokens) or the location of an input parse error.  The nodes the analysis synthesizes do not add
    places: a PFuncEntry carries the range of the instruction it precedes (SelNode of that instruction), the
-   `jal x0, __return__` replacing an additional return carries the range of that return (SelNode), and CFG
+   `jal x0, <return>` replacing an additional return carries the range of that return (SelNode), and CFG
    errors point at a label token (SelName) or at a function's entry (SelNode). *)
 Definition place (ns1 ns2 : list pnode) (es1 es2 : list parse_error) (l1 l2 : loc) : Prop :=
   same_place ns1 ns2 l1 l2 \/ parse_place es1 es2 l1 l2.
